@@ -471,7 +471,7 @@ func (p *c20) Shrink(scAny any) []any {
 
 func (p *c20) Info() PropInfo {
 	return PropInfo{
-		Rule: "enumeration: reply code 400..599 (all 200) x text form {plain, enhanced code at start, enhanced-code-like triple later in the text (an IP address), multi-line, enhanced code and nothing else, multi-line whose first line is the bare enhanced code} x position {MAIL, a RCPT, DATA, end-of-data, RSET} x ENHANCEDSTATUSCODES advertised or not, each in a batch of 1..3 messages x 1..3 recipients drawn from the seed; plus sampled scenarios with several rejected recipients carrying different codes; non-trivial = at least one message was refused; distinct = distinct (label, batch size, failing steps and codes)",
+		Rule: "enumeration: reply code 400..599 (all 200) x text form {plain, enhanced code at start, enhanced-code-like triple later in the text (an IP address), multi-line, enhanced code and nothing else, multi-line whose first line is the bare enhanced code} x position {MAIL, a RCPT, DATA, end-of-data, RSET} x ENHANCEDSTATUSCODES advertised or not, each in a batch of 1..3 messages x 1..3 recipients (a quarter with local parts that need quoting on the wire) drawn from the seed, DialAndSend runs partly with a refused or lost QUIT; plus sampled scenarios with several rejected recipients carrying different codes; non-trivial = at least one message was refused; distinct = distinct (label, batch size, failing steps and codes)",
 		Assumptions: []string{"NOOP is always accepted (not a position of the property)", "the rejected-recipient list is read from SendError.Error() because the type has no accessor for it",
 			"messages that follow a message after which the dialogue became illegal (C04's subject) are not judged for 'unaffected'"},
 		Real:        []string{"go-mail Client.Send/DialAndSend, SendError, smtp.Client", "net/textproto"},
